@@ -4,8 +4,10 @@
 EXTENDS Lifecycle, Json, IOUtils, SequencesExt
 
 Traces == ndJsonDeserialize(IOEnv.TRACE_FILE)
-VARIABLES tid, l, bad, drift
-tvars == <<vars, tid, l, bad, drift>>
+VARIABLES tid, l, bad, drift,
+          want      \* the strongest priority REQUESTED since the last reload, accumulated by this module from the
+                    \* submissions themselves (never read from the FSM): what C12 calls "requested so far"
+tvars == <<vars, tid, l, bad, drift, want>>
 Rec(t, i) == Traces[t].steps[i]
 
 Accepted(fs) == SelectSeq(fs, LAMBDA f : f.accepted)
@@ -29,7 +31,7 @@ Bind(r) ==
     /\ nsub' = IF r.ev = "SubmitBegin" THEN nsub + 1 ELSE nsub
     /\ nenv' = IF r.ev = "Env" THEN nenv + 1 ELSE nenv
     /\ ncyc' = IF r.ev = "CmdReset" \/ (r.ev = "DispatchArchive" /\ r.st.st = "archiving" /\ st = "running") THEN ncyc + 1 ELSE ncyc
-    /\ nraw' = IF r.ev = "RawTrigger" THEN nraw + 1 ELSE nraw
+    /\ nraw' = IF r.ev \in {"RawTrigger", "RawRun"} THEN nraw + 1 ELSE nraw
 
 FailClause(name, ok) == IF ok THEN {} ELSE {name}
 EdgesOK == /\ path'[1] = st /\ path'[Len(path')] = st'
@@ -39,7 +41,7 @@ StepClauses(r) ==
     FailClause("C10.Edges", EdgesOK)
     \cup FailClause("C10.Rest", C10_Rest')
     \cup FailClause("C10.Active", r.st.active => (st' = "running" /\ tr' = "active" /\ bg' = {}))
-    \cup FailClause("C10.Rejected", rejected' => UNCHANGED <<st, tr, prior, bg, prio, wait>>)
+    \cup FailClause("C10.Rejected", (rejected' /\ bg' = bg) => UNCHANGED <<st, tr, prior, bg, prio, wait>>)
     \cup FailClause("C10.OutOfTurnRejected",
            (r.ev = "RawTrigger" /\ NotAllowed(r.args.name)) => (rejected' /\ UNCHANGED <<st, tr, prior, bg, prio, wait, slot>>))
     \cup FailClause("C10.ArchiveReturns", \A i \in 1..(Len(path') - 1) : path'[i] = "archiving" => path'[i + 1] = prior')
@@ -47,6 +49,14 @@ StepClauses(r) ==
            \A i \in DOMAIN r.obs.fires :
               (r.obs.fires[i].accepted /\ r.obs.fires[i].src # "reset") =>
                  Allowed([prio |-> r.obs.fires[i].prio, busy |-> r.obs.fires[i].busy, doing |-> r.obs.fires[i].doing, que |-> r.obs.fires[i].que]))
+    \cup FailClause("C12.StrongestRequested",
+           \A i \in DOMAIN r.obs.fires :
+              (r.obs.fires[i].accepted /\ r.obs.fires[i].src # "reset") =>
+                 Allowed([prio |-> want', busy |-> r.obs.fires[i].busy, doing |-> r.obs.fires[i].doing, que |-> r.obs.fires[i].que]))
+    \cup FailClause("C12.StrongestWaits",
+           \* the waiter of the strongest priority requested so far is alive as long as the reload has not been triggered
+           (want' \in {"crew", "doing", "todo"} /\ nfired' = 0 /\ st' = "running" /\ tr' = "active") =>
+              (wait'[KOf(want')] /\ slot'[KOf(want')] \in {"armed", "finished"}))
     \cup FailClause("C12.ExactlyOnce", nfired' <= 1)
     \cup FailClause("C12.NoSpuriousFire", (fire'.src = "poller") => prio # "none")
     \cup FailClause("C12.NotLost", C12_NotLost')
@@ -75,19 +85,23 @@ ModelStep(r) ==
       [] r.ev = "PollerObserve" -> PollerObserve(r.args.k) \/ UNCHANGED <<st, tr, bg, prio, wait, slot>>
       [] r.ev = "PollerDone" -> PollerDone(r.args.k)
       [] r.ev = "RawTrigger" -> RawTrigger(r.args.name) \/ ~NotAllowed(r.args.name)
+      [] r.ev = "RawRun" -> RawRun
       [] r.ev = "Quiesce" -> UNCHANGED <<st, tr, bg, prio, wait, slot>>
       [] OTHER -> TRUE
 
 TraceInit ==
     /\ tid \in 1..Len(Traces) /\ l = 1
     /\ Init
-    /\ bad = {} /\ drift = FALSE
+    /\ bad = {} /\ drift = FALSE /\ want = "none"
 
 TraceNext ==
     /\ l < Len(Traces[tid].steps)
     /\ l' = l + 1 /\ UNCHANGED tid
     /\ LET r == Rec(tid, l + 1) IN
        /\ Bind(r)
+       /\ want' = IF DidReset(r.obs.path) THEN "none"
+                  ELSE IF r.ev = "SubmitEnd" /\ sub = "gitting" /\ r.st.sub = "idle" /\ ~r.obs.rejected THEN PMax(want, Norm(subp))
+                  ELSE want
        /\ bad' = StepClauses(r)
        /\ drift' = ~ModelStep(r)
        /\ (bad' # {} => PrintT(<<"CLAUSE", Traces[tid].tid, l + 1, r.ev, bad'>>))
